@@ -49,7 +49,7 @@ Stream(s) ==
                                ELSE [msgs |-> <<>>, codes |-> {0}]
     [] s.body = "garbage"   -> [msgs |-> <<>>, codes |-> 1..16]
     [] s.body = "truncated" -> [msgs |-> <<>>, codes |-> IF RawBody(s) THEN 0..16 ELSE 1..16]
-    [] s.body = "badmsg"    -> [msgs |-> <<>>, codes |-> {3}]
+    [] s.body \in {"badmsg", "badutf8"} -> [msgs |-> <<>>, codes |-> {3}]
     [] s.body = "oversize"  -> [msgs |-> <<>>, codes |-> IF s.limit > 0 THEN {3, 8} ELSE {0}]
     [] s.body = "cnoenc"    -> IF s.enc = "gzip" THEN [msgs |-> <<1>>, codes |-> {0}]     \* the header does name it
                                ELSE [msgs |-> <<>>, codes |-> IF RawBody(s) THEN {3} ELSE {3, 13}]
@@ -115,7 +115,7 @@ RefusedNeverRuns == Done /\ (r.bare \/ r.codes \in {{12}} \/ ~TimeoutOK(sc)) => 
 AcceptedIffAdvertised == Done /\ sc.method = "POST" /\ ~(sc.kind = "bidi" /\ sc.major < 2) =>
                            ((r.status = 415) <=> (sc.ctype \notin AcceptPost(sc)))
 \* C07: undeliverable input is never a success
-NeverSuccessOnGarbage == Done /\ ~r.bare /\ sc.body \in {"garbage", "badmsg"} /\ ~RawBody(sc) /\ r.ran # {0} => 0 \notin r.codes
+NeverSuccessOnGarbage == Done /\ ~r.bare /\ sc.body \in {"garbage", "badmsg", "badutf8"} /\ ~RawBody(sc) /\ r.ran # {0} => 0 \notin r.codes
 \* C10: a malformed timeout never reaches user code
 BadTimeoutRejected == Done /\ ~r.bare /\ sc.enc # "unknown" /\ ~TimeoutOK(sc) => r.codes = {3} /\ r.ran = {0}
 =============================================================================
